@@ -114,6 +114,55 @@ func onceLiteral(lit *ssa.Function) (owner ssa.Value, ok bool) {
 
 func runEffects(fns []*ssa.Function, cfg effectConfig) []effectFinding {
 	var out []effectFinding
+	// counters: fields of shared objects bumped by an atomic Add whose result is discarded are
+	// tolerated as write-only metrics; reading one in the analysed (request-phase) functions
+	// makes requests observe each other
+	bumped := map[*types.Var]ssa.Instruction{}
+	for _, fn := range fns {
+		allInstrs(fn, func(in ssa.Instruction) {
+			ci, ok := in.(ssa.CallInstruction)
+			if !ok || len(ci.Common().Args) == 0 {
+				return
+			}
+			if n := callName(ci.Common()); isContainerMutator(n) && isPureCounterBump(ci, n) {
+				if f := fieldOf(strip(ci.Common().Args[0])); f != nil {
+					if o, g, _ := ownerOfValue(ci.Common().Args[0]); (o != nil && cfg.classify(o) == "shared") || g != nil {
+						bumped[f] = in
+					}
+				}
+			}
+		})
+	}
+	if len(bumped) > 0 {
+		for _, fn := range fns {
+			allInstrs(fn, func(in ssa.Instruction) {
+				ci, ok := in.(ssa.CallInstruction)
+				if !ok || len(ci.Common().Args) == 0 {
+					return
+				}
+				n := callName(ci.Common())
+				isRead := strings.HasPrefix(n, "sync/atomic.Load") || (strings.HasPrefix(n, "(*sync/atomic.") && strings.HasSuffix(n, ").Load"))
+				if !isRead {
+					return
+				}
+				if f := fieldOf(strip(ci.Common().Args[0])); f != nil && bumped[f] != nil {
+					out = append(out, effectFinding{fn, in, "shared-store", "counter " + f.Name() + " is bumped by every request and read here while serving one: requests observe each other"})
+				}
+			})
+			// plain (non-atomic) reads of the counter field
+			allInstrs(fn, func(in ssa.Instruction) {
+				u, ok := in.(*ssa.UnOp)
+				if !ok || u.Op != token.MUL {
+					return
+				}
+				if f := fieldOf(u.X); f != nil && bumped[f] != nil {
+					if _, isBasic := f.Type().Underlying().(*types.Basic); isBasic {
+						out = append(out, effectFinding{fn, in, "shared-store", "counter " + f.Name() + " is bumped atomically by every request but read non-atomically here"})
+					}
+				}
+			})
+		}
+	}
 	for _, fn := range fns {
 		onceOwner, inOnce := onceLiteral(fn)
 		sameAsOnceOwner := func(addr ssa.Value) bool {
